@@ -43,6 +43,9 @@ def showState (st : St) : String :=
       complete <key> <k> | notify <key> | persist <key> | crash <key> <d>     (Restart.step on the run state of channel <key>)
       reconcile <queued forwards chan:id,..> <awaiting decode chan:id,..> <outbound HTLC previous hops of closed channels' monitors>
           → `<forwards kept> | <awaiting decode kept>`      (Restart.reconcile / Restart.dedupDecode)
+      spendconf <matured 0/1> <pending FundingSpendConfirmation height | -> <best height> <number of HTLCs the real function failed>
+          → `ok confs=<n>` | `INCONSISTENT`      (ClosedMon.confirmedForReload / confirmations)
+      spendfail <matured> <height | -> <best> <a|d|o0|o1> <resolved to user 0/1> → true | false      (Restart.failedOnReload for one outbound HTLC)
       state <key> → `<latest> <watch> <in-flight> <chan nums> <nums of the monitor at watch>` -/
 def c10 : Drv where
   σ := List (String × St)
@@ -63,6 +66,16 @@ def c10 : Drv where
       | none => (sts, "bad-op")
     | ["reconcile", q, dq, mons] =>
       (sts, s!"{showRefs (reconcile (refs q) (refs mons))} | {showRefs (decodeRefs (dedupDecode (toDecodeMap (refs dq)) (refs mons)))}")
+    | ["spendconf", mt, sh, best, nfailed] =>
+      -- the real get_onchain_failed_outbound_htlcs returned `nfailed` HTLCs for a monitor in this state: a non-empty answer
+      -- requires the funding spend to count as confirmed; the model's verdict is printed alongside
+      let m : ClosedMon := ⟨mt == "1", if sh == "-" then none else some (nat! sh), nat! best⟩
+      (sts, if nat! nfailed > 0 && !m.confirmedForReload then "INCONSISTENT" else s!"ok confs={m.confirmations}")
+    | ["spendfail", mt, sh, best, pos, r] =>
+      let m : ClosedMon := ⟨mt == "1", if sh == "-" then none else some (nat! sh), nat! best⟩
+      let p : Option HtlcPos := match pos with
+        | "a" => some .absent | "d" => some .dust | "o0" => some (.output false) | "o1" => some (.output true) | _ => none
+      (sts, match p with | some p => toString (failedOnReload m p (r == "1")) | none => "bad-op")
     | ["init", k, b, h, c, s] => ((k, St.init (nat! b) ⟨nat! h, nat! c, nat! s⟩) :: sts.filter (fun p => p.1 != k), "ok")
     | ["upd", k, dh, dc, ds, bl] => upd k (fun st => step st (.update ⟨nat! dh, nat! dc, nat! ds⟩ (bl == "1")))
     | ["jump", k, dh, dc, ds] => upd k (fun st => step st (.jump ⟨nat! dh, nat! dc, nat! ds⟩))
